@@ -577,6 +577,10 @@ spec:
         requires label.0.ok()     // [C04]
         ensures r.sev() == self.sev(), r.stage_spec() == self.stage_spec(), r.lbls() == self.lbls().push(label.0)
 @*/
+/*@ fn src/error.rs SourceDiag::add_hint stub
+spec:
+        ensures final(self).sev() == old(self).sev(), final(self).lbls() == old(self).lbls()
+@*/
 /*@ fn src/error.rs SourceDiag::hint stub
 ret r
 rewrite `mut self` => `self`
@@ -2729,6 +2733,100 @@ before `Some(())`:
 }
 } // verus!
 } // mod parser_fns
+
+pub mod analysis {
+use vstd::prelude::*;
+use std::collections::HashMap;
+use crate::*;
+use crate::error::{SourceDiag, Severity};
+use crate::located::Located;
+use crate::quantity::Value;
+use crate::span::Span;
+use crate::text::Text;
+use crate::parser_model as parser;
+/*@ macro src/analysis/event_consumer.rs warning
+@*/
+verus! {
+/*@ type src/quantity.rs ScalableValue
+derive
+@*/
+/*@ type src/quantity.rs Quantity
+derive
+rewrite `pub struct Quantity<V: QuantityValue = Value> {` => `pub struct Quantity<V = Value> {`
+rewrite `pub(crate) value: V,` => `pub value: V,`
+rewrite `pub(crate) unit: Option<String>,` => `pub unit: Option<String>,`
+@*/
+impl<V> Quantity<V> {
+/*@ fn src/quantity.rs Quantity::new
+tags C08
+ret r
+spec:
+        ensures r.value == value, r.unit == unit
+@*/
+}
+impl Value {
+    // X2: `impl QuantityValue for Value { fn is_text }` checked as an inherent method
+/*@ fn src/quantity.rs <QuantityValue~for~Value>::is_text
+tags C08
+ret r
+spec:
+        ensures r == (*self is Text)
+@*/
+}
+// TRUSTED stand-ins: the fields of the collector that `value` never touches are opaque types (no operation on them is used
+// or assumed); the report is opaque too and `SourceReport::warn` is an assumed stub whose precondition is its own debug assertion
+#[verifier::external_body] pub struct Converter { _p: () }
+#[verifier::external_body] pub struct ParseOptions<'c> { _p: &'c () }
+#[verifier::external_body] pub struct ScalableRecipe { _p: () }
+#[verifier::external_body] pub struct Section { _p: () }
+#[verifier::external_body] pub struct DefineMode { _p: () }
+#[verifier::external_body] pub struct DuplicateMode { _p: () }
+#[verifier::external_body] pub struct Locations<'i> { _p: &'i () }
+#[verifier::external_body] pub struct SourceReport { _p: () }
+impl SourceReport {
+    /// severities of the diagnostics reported so far
+    pub uninterp spec fn sevs(&self) -> Seq<Severity>;
+/*@ fn src/error.rs SourceReport::warn stub
+spec:
+        requires w.sev() == Severity::Warning      // [C03] [C07] the debug assertion inside `warn` (and `push`)
+        ensures final(self).sevs() == old(self).sevs().push(Severity::Warning)
+@*/
+}
+/*@ type src/analysis/event_consumer.rs RecipeCollector
+derive
+@*/
+impl<'i> RecipeCollector<'i, '_> {
+    pub closed spec fn rep(&self) -> Seq<Severity> { self.ctx.sevs() }
+/*@ fn src/analysis/event_consumer.rs RecipeCollector::value
+tags C08 C07 C03
+ret r
+spec:
+        requires value.value.sp().ok()     // [C04] the value comes from the parser with a reportable span (pq_ok)
+        ensures
+            // [C08] exactly the numeric, unlocked quantities of ingredients are marked as scaling linearly; the value itself is kept
+            (is_ingredient && !(value.value.val() is Text) && value.scaling_lock.is_none()) ==> r == ScalableValue::Linear(value.value.val()),
+            !(is_ingredient && !(value.value.val() is Text) && value.scaling_lock.is_none()) ==> r == ScalableValue::Fixed(value.value.val()),
+            // [C07] a warning is reported exactly when a scaling lock is written where it has no effect, and nothing else is reported
+            (value.scaling_lock.is_some() && !(is_ingredient && !(value.value.val() is Text))) ==> final(self).rep() == old(self).rep().push(Severity::Warning),
+            !(value.scaling_lock.is_some() && !(is_ingredient && !(value.value.val() is Text))) ==> final(self).rep() == old(self).rep(),
+@*/
+/*@ fn src/analysis/event_consumer.rs RecipeCollector::quantity
+tags C08 C07 C03
+ret r
+inline map 0
+spec:
+        requires quantity.val().value.value.sp().ok()     // [C04] pq_ok of the parsed quantity
+        ensures
+            // [C08] the value is classified by `value` and the unit is kept exactly when one was written
+            (is_ingredient && !(quantity.val().value.value.val() is Text) && quantity.val().value.scaling_lock.is_none())
+                ==> r.value == ScalableValue::Linear(quantity.val().value.value.val()),
+            !(is_ingredient && !(quantity.val().value.value.val() is Text) && quantity.val().value.scaling_lock.is_none())
+                ==> r.value == ScalableValue::Fixed(quantity.val().value.value.val()),
+            r.unit.is_some() == quantity.val().unit.is_some(),
+@*/
+}
+} // verus!
+} // mod analysis
 
 pub mod ast {
 use vstd::prelude::*;
